@@ -5,8 +5,7 @@
  *           barrier; every call must produce the single-threaded result and the slot must end on the
  *           target a single-threaded resolution yields.
  *   The library's writable static storage is compared with its load-time image after every phase. */
-#include "aesfam.h"
-#include "hashalgs.h"
+#include "entrycall.h"
 #include <pthread.h>
 #include <sched.h>
 #include <isal_crypto_api.h>
@@ -28,14 +27,9 @@ static void sbar_wait(sbar_t *b)
 }
 
 /* ------------------------------------------------------------------ mixed operations on private objects */
-typedef struct { uint8_t kd[sizeof(struct isal_gcm_key_data)] __attribute__((aligned(64))); struct isal_gcm_context_data gctx; uint8_t in[4096] __attribute__((aligned(64))), out[4096] __attribute__((aligned(64))), out2[4096] __attribute__((aligned(64)));
-        uint8_t key[64], iv[16] __attribute__((aligned(16))), aad[64], tag[16], e[240] __attribute__((aligned(16))), d[240] __attribute__((aligned(16)));
-        struct isal_mh_sha1_ctx mh1; struct isal_mh_sha256_ctx mh2; struct isal_mh_sha1_murmur3_x64_128_ctx mh3; struct isal_rh_state2 rh; uint8_t *hmgr[5], *hctx[5][4]; } priv_t;
-
 static uint64_t one_op(priv_t *p, rng_t *r)
 {
         uint64_t h = 0;
-#define ACC(ptr, n) do { const uint8_t *b_ = (const uint8_t *) (ptr); for (size_t i_ = 0; i_ < (size_t) (n); i_++) h = mix64(h, b_[i_]); } while (0)
         uint32_t len = rng_below(r, 3) ? rng_below(r, 300) : rng_below(r, 4000);
         rng_fill(r, p->in, len); rng_fill(r, p->key, 64); rng_fill(r, p->iv, 16); rng_fill(r, p->aad, 64);
         switch (rng_below(r, 10)) {
@@ -86,16 +80,6 @@ static uint64_t one_op(priv_t *p, rng_t *r)
         }
         return h;
 }
-static priv_t *priv_new(void)
-{
-        priv_t *p = aligned_alloc(64, (sizeof *p + 63) & ~(size_t) 63);
-        memset(p, 0, sizeof *p);
-        for (int ai = 0; ai < 5; ai++) {
-                p->hmgr[ai] = aligned_alloc(64, (halgs[ai].mgr_size + 63) & ~(size_t) 63);
-                for (int k = 0; k < 4; k++) p->hctx[ai][k] = aligned_alloc(64, (halgs[ai].ctx_size + 63) & ~(size_t) 63);
-        }
-        return p;
-}
 struct marg { int id; uint64_t nops; uint64_t *res; sbar_t *bar; };
 static void *mixed_thread(void *av)
 {
@@ -131,84 +115,6 @@ static void mode_mixed(void)
         out_max("threads", (uint64_t) nthr);
 }
 
-/* ------------------------------------------------------------------ first-call storms */
-typedef struct { const char *name; void *entry; int kind, a, b, c; } sentry_t;  /* kind: 0 hash init,1 submit,2 flush; 10 gcm one,11 init,12 upd,13 fin,14 precomp; 20 xts; 30 cbc enc,31 cbc dec; 40 keyexp,41 keyexp enc; 50 mh upd,51 mh fin; 60 rolling */
-static sentry_t S[80]; static int nS;
-#pragma GCC diagnostic ignored "-Wstrict-prototypes"
-extern int _mh_sha1_update(), _mh_sha1_finalize(), _mh_sha256_update(), _mh_sha256_finalize(), _mh_sha1_murmur3_x64_128_update(), _mh_sha1_murmur3_x64_128_finalize();
-extern uint64_t _rolling_hash2_run_until();
-static void build_entries(void)
-{
-        for (int ai = 0; ai < 5; ai++) for (int k = 0; k < 3; k++) S[nS++] = (sentry_t) { halgs[ai].name, halgs[ai].entry[k], k, ai, 0, 0 };
-        for (int ks = 0; ks < 2; ks++) {
-                S[nS++] = (sentry_t) { "gcm precomp", (void *) gcm_entries.precomp[ks], 14, ks, 0, 0 };
-                S[nS++] = (sentry_t) { "gcm init", (void *) gcm_entries.init[ks], 11, ks, 0, 0 };
-                for (int d = 0; d < 2; d++) {
-                        S[nS++] = (sentry_t) { "gcm finalize", (void *) gcm_entries.fin[ks][d], 13, ks, d, 0 };
-                        for (int nt = 0; nt < 2; nt++) { S[nS++] = (sentry_t) { "gcm one-shot", (void *) gcm_entries.one[ks][d][nt], 10, ks, d, nt }; S[nS++] = (sentry_t) { "gcm update", (void *) gcm_entries.upd[ks][d][nt], 12, ks, d, nt }; }
-                        for (int xp = 0; xp < 2; xp++) S[nS++] = (sentry_t) { "xts", (void *) xts_entries[ks][d][xp], 20, ks, d, xp };
-                }
-        }
-        for (int ks = 0; ks < 3; ks++) { S[nS++] = (sentry_t) { "cbc enc", (void *) cbc_enc_entries[ks], 30, ks, 0, 0 }; S[nS++] = (sentry_t) { "cbc dec", (void *) cbc_dec_entries[ks], 31, ks, 0, 0 }; S[nS++] = (sentry_t) { "keyexp", (void *) keyexp_entries[ks], 40, ks, 0, 0 }; }
-        S[nS++] = (sentry_t) { "keyexp enc", (void *) keyexp_enc128_entry, 41, 0, 0, 0 };
-        S[nS++] = (sentry_t) { "mh_sha1 update", (void *) _mh_sha1_update, 50, 0, 0, 0 }; S[nS++] = (sentry_t) { "mh_sha1 finalize", (void *) _mh_sha1_finalize, 51, 0, 0, 0 };
-        S[nS++] = (sentry_t) { "mh_sha256 update", (void *) _mh_sha256_update, 50, 1, 0, 0 }; S[nS++] = (sentry_t) { "mh_sha256 finalize", (void *) _mh_sha256_finalize, 51, 1, 0, 0 };
-        S[nS++] = (sentry_t) { "murmur update", (void *) _mh_sha1_murmur3_x64_128_update, 50, 2, 0, 0 }; S[nS++] = (sentry_t) { "murmur finalize", (void *) _mh_sha1_murmur3_x64_128_finalize, 51, 2, 0, 0 };
-        S[nS++] = (sentry_t) { "rolling scan", (void *) _rolling_hash2_run_until, 60, 0, 0, 0 };
-}
-/* call the entry once on private objects with small valid arguments; returns a hash of the outputs */
-static uint64_t call_entry(const sentry_t *s, priv_t *p, uint64_t seed)
-{
-        rng_t r; rng_seed(&r, seed);
-        uint64_t h = 0;
-        uint32_t len = 64 + rng_below(&r, 200);
-        rng_fill(&r, p->in, 512); rng_fill(&r, p->key, 64); rng_fill(&r, p->iv, 16); rng_fill(&r, p->aad, 64);
-        ref_aes_t a; ref_aes_expand(&a, p->key, s->kind >= 30 && s->kind < 42 ? ks_bits3[s->a] : ks_bits2[s->a & 1]);
-        switch (s->kind) {
-        case 0: case 1: case 2: {
-                const halg_t *al = &halgs[s->a];
-                /* the manager is prepared through the dispatched init (same family by the same-object binding rule);
-                 * all three slots are re-armed each round, so preparation calls race as first calls too */
-                void *ret;
-                if (s->kind == 0) { ((h_init_f) s->entry)(p->hmgr[s->a]); h = 1; break; }
-                ((h_init_f) al->entry[0])(p->hmgr[s->a]); al->ctx_init(p->hctx[s->a][0]);
-                if (s->kind == 1) { ret = ((h_submit_f) s->entry)(p->hmgr[s->a], p->hctx[s->a][0], p->in, len, ISAL_HASH_ENTIRE); h = ret ? 2 : 1; while (((h_flush_f) al->entry[2])(p->hmgr[s->a])) ; }
-                else { ((h_submit_f) al->entry[1])(p->hmgr[s->a], p->hctx[s->a][0], p->in, len, ISAL_HASH_ENTIRE); int n = 0; while (((h_flush_f) s->entry)(p->hmgr[s->a])) n++; h = (uint64_t) n; }
-                ACC(p->hctx[s->a][0] + al->off_digest, al->dbytes);
-                break; }
-        case 10: case 11: case 12: case 13: case 14: {
-                memcpy(p->kd, a.enc, (size_t) 16 * (a.nr + 1));
-                if (s->kind == 14) { ((gcm_precomp_f) s->entry)(p->kd); ACC(p->kd + 240, 16 * 8); break; }
-                gcm_entries.precomp[s->a](p->kd);
-                if (s->kind == 10) { ((gcm_one_f) s->entry)(p->kd, &p->gctx, p->out, p->in, len, p->iv, p->aad, 20, p->tag, 16); ACC(p->out, len); ACC(p->tag, 16); }
-                else if (s->kind == 11) { ((gcm_init_f) s->entry)(p->kd, &p->gctx, p->iv, p->aad, 20); ACC(&p->gctx, sizeof p->gctx); }
-                else { gcm_entries.init[s->a](p->kd, &p->gctx, p->iv, p->aad, 20);
-                        if (s->kind == 12) { ((gcm_upd_f) s->entry)(p->kd, &p->gctx, p->out, p->in, 128); ACC(p->out, 128); }
-                        else { gcm_entries.upd[s->a][s->b][0](p->kd, &p->gctx, p->out, p->in, 100); ((gcm_fin_f) s->entry)(p->kd, &p->gctx, p->tag, 16); ACC(p->tag, 16); } }
-                break; }
-        case 20: { ref_aes_t a2; ref_aes_expand(&a2, p->key + 32, ks_bits2[s->a]);
-                const uint8_t *k1 = s->c ? (s->b ? (uint8_t *) a.dec : (uint8_t *) a.enc) : p->key, *k2 = s->c ? (uint8_t *) a2.enc : p->key + 32;
-                ((xts_f) s->entry)(k2, k1, p->iv, len, p->in, p->out); ACC(p->out, len); break; }
-        case 30: memcpy(p->e, a.enc, 240); ((cbc_enc_f) s->entry)(p->in, p->iv, p->e, p->out, 160); ACC(p->out, 160); break;
-        case 31: memcpy(p->d, a.dec, 240); ((cbc_dec_f) s->entry)(p->in, p->iv, p->d, p->out, 160); ACC(p->out, 160); break;
-        case 40: ((keyexp_f) s->entry)(p->key, p->e, p->d); ACC(p->e, (size_t) 16 * (a.nr + 1)); ACC(p->d, (size_t) 16 * (a.nr + 1)); break;
-        case 41: ((keyexp_enc_f) s->entry)(p->key, p->e); ACC(p->e, 176); break;
-        case 50: case 51: {
-                void *ctx = s->a == 0 ? (void *) &p->mh1 : s->a == 1 ? (void *) &p->mh2 : (void *) &p->mh3;
-                uint32_t dg[8] = { 0 }; uint8_t mu[16] = { 0 };
-                if (s->a == 0) isal_mh_sha1_init(ctx); else if (s->a == 1) isal_mh_sha256_init(ctx); else isal_mh_sha1_murmur3_x64_128_init(ctx, 5);
-                if (s->kind == 50) { ((int (*)(void *, const void *, uint32_t)) s->entry)(ctx, p->in, 2100);
-                        if (s->a == 0) { ACC(p->mh1.mh_sha1_interim_digests, sizeof p->mh1.mh_sha1_interim_digests); } else if (s->a == 1) { ACC(p->mh2.mh_sha256_interim_digests, sizeof p->mh2.mh_sha256_interim_digests); } else { ACC(p->mh3.mh_sha1_interim_digests, sizeof p->mh3.mh_sha1_interim_digests); } }
-                else { if (s->a == 0) mh_sha1_update_base(ctx, p->in, 300); else if (s->a == 1) mh_sha256_update_base(ctx, p->in, 300); else mh_sha1_murmur3_x64_128_update_base(ctx, p->in, 300);
-                        if (s->a == 2) ((int (*)(void *, void *, void *)) s->entry)(ctx, dg, mu); else ((int (*)(void *, void *)) s->entry)(ctx, dg);
-                        ACC(dg, 32); ACC(mu, 16); }
-                break; }
-        case 60: { rolling_hash2_init(&p->rh, 8); rolling_hash2_reset(&p->rh, p->key); uint32_t idx = 8;
-                uint64_t hh = ((uint64_t (*)(uint32_t *, int, uint64_t *, uint64_t *, uint8_t *, uint8_t *, uint64_t, uint64_t, uint64_t)) s->entry)(&idx, 300, p->rh.table1, p->rh.table2, p->in + 8, p->in, 0x1234, 0xff, 0x17);
-                h = mix64(hh, idx); break; }
-        }
-        return h;
-}
 struct sarg { int id; const sentry_t *s; uint64_t seed; uint64_t res; sbar_t *go, *done; volatile int *stop; priv_t *p; };
 static void *storm_thread(void *av)
 {
